@@ -95,6 +95,11 @@ spec accepts(target ddptypes.Type, value ddptypes.Type) bool :=
   || (ddptypes.IsNumeric(target) && ddptypes.IsNumeric(value))
   || (ddptypes.Equal(target, ddptypes.VARIABLE) && !ddptypes.Equal(value, mk[ddptypes.VoidType]()))
 
+// TRUSTED frame: looking a type up in the symbol tables changes nothing
+func IsPublicType
+  trusted
+  modifies nothing
+
 // initialisation: an initialiser the declared type does not accept is reported; an accepted one is not
 // (a non-public type in a public declaration is a separate rule)
 func (*Typechecker).VisitVarDecl [C14, C04]
